@@ -1025,6 +1025,18 @@ func (f *frame) execAppend(v ssa.Value, cm *ssa.CallCommon, g Term, st *State) e
 				Implies(And(Le(IntLit(0), jt), Lt(jt, SLen(s))), Eq(newCell, oldCell)),
 				Implies(And(Le(SLen(s), jt), Lt(jt, newLen)), Eq(newCell, addCell)))
 			vc.cmd(fmt.Sprintf("(assert (=> %s (forall ((%s Int)) (! %s :pattern (%s)))))", g.S, j, body.S, newCell.S))
+			// the same two facts over the absolute cell index of the result (pattern without
+			// arithmetic: any read of a cell of the result array instantiates them); they serve
+			// clauses written with `elems()`
+			vc.nfresh++
+			am := fmt.Sprintf("m_%d", vc.nfresh)
+			amt := Term{am, SInt}
+			newAbs := Select(Select(h1, SObj(res)), amt)
+			rel := Sub(amt, SOff(res))
+			bodyAbs := And(
+				Implies(And(Le(SOff(res), amt), Lt(amt, Add(SOff(res), SLen(s)))), Eq(newAbs, Select(Select(h0, SObj(s)), Add(SOff(s), rel)))),
+				Implies(And(Le(Add(SOff(res), SLen(s)), amt), Lt(amt, Add(SOff(res), newLen))), Eq(newAbs, Select(Select(h0, tobj), Add(toff, Sub(rel, SLen(s)))))))
+			vc.cmd(fmt.Sprintf("(assert (=> %s (forall ((%s Int)) (! %s :pattern (%s)))))", g.S, am, bodyAbs.S, newAbs.S))
 		}
 	}
 	return nil
